@@ -46,6 +46,7 @@ type NetSpec struct {
 	Path    string     `json:"path"` // getter | dl-ref | dl-url | locate | manager
 	Repos   []RepoSpec `json:"repos"`
 	Verify  bool       `json:"verify,omitempty"`
+	Reuse   bool       `json:"reuse,omitempty"` // dl-seq: one ChartDownloader value serves every download (SDK use), not one per download
 	StallS  int        `json:"stallS,omitempty"`
 	C17     *C17Spec   `json:"c17,omitempty"`
 	Resign  *DiskFault `json:"resign,omitempty"`  // C20b: the provenance text was damaged on the publisher's disk BEFORE it was signed with the trusted key
@@ -238,10 +239,17 @@ func ExecuteC19(t *testing.T, plan *Plan) *RunResult {
 			settings.RepositoryCache = cache
 			settings.PluginsDirectory = filepath.Join(dir, "no-plugins")
 			shared := getter.All(settings)
+			var one *downloader.ChartDownloader
 			for i, r := range spec.Repos {
-				dl := downloader.ChartDownloader{Out: io.Discard, Getters: shared, RepositoryConfig: cfg, RepositoryCache: cache, Verify: downloader.VerifyNever}
+				dl := &downloader.ChartDownloader{Out: io.Discard, Getters: shared, RepositoryConfig: cfg, RepositoryCache: cache, Verify: downloader.VerifyNever}
 				if spec.Verify {
 					dl.Verify = downloader.VerifyIfPossible
+				}
+				if spec.Reuse {
+					if one == nil {
+						one = dl
+					}
+					dl = one
 				}
 				dest := filepath.Join(dir, fmt.Sprintf("dest%d", i))
 				os.MkdirAll(dest, 0o755)
@@ -369,7 +377,11 @@ func ExecuteC19(t *testing.T, plan *Plan) *RunResult {
 				}
 			}
 		}
-		violate("credentials-only-to-origin", r.Variant+redirectTag(r), fmt.Sprintf("credentials of repository %s (%s) were sent to %s://%s%s", r.Name, r.URL, q.Scheme, q.Addr, q.Path))
+		cause := r.Variant + redirectTag(r)
+		if spec.Reuse {
+			cause += "+same-downloader"
+		}
+		violate("credentials-only-to-origin", cause, fmt.Sprintf("credentials of repository %s (%s) were sent to %s://%s%s", r.Name, r.URL, q.Scheme, q.Addr, q.Path))
 		break
 	}
 	if own > 0 {
@@ -411,6 +423,7 @@ func genC19(seed, index uint64, tier string) *Plan {
 	nrepos := 1
 	if spec.Path == "dl-seq" {
 		nrepos = 2 + g.N(2)
+		spec.Reuse = g.Chance(0.4)
 	}
 	if spec.Path == "manager" || spec.Path == "manager-build" {
 		nrepos = 1 + g.N(3)
